@@ -643,6 +643,28 @@ impl Check for C09 {
             let post = if r.chance(1, 2) { 0 } else { r.range(0, 70) };
             emit(Case::with("grid", vec![], &[class, pos as i64, len as i64, off as i64, post as i64]));
         }
+        // (b2) the same grid for literals of 200..2100 bytes: one special sequence at EVERY position
+        // of the literal for the malformed classes (every 5th position, rotating, for the others),
+        // so that whatever a decoder does per 64/128/256/512/1024-byte window is met at every
+        // phase of the window
+        {
+            let lens: &[usize] = if g.tier == Tier::Quick { &[255, 256, 257, 520, 1030] } else { &[200, 255, 256, 257, 300, 511, 512, 513, 700, 1023, 1024, 1025, 1500, 2050, 2100] };
+            let mut idx = 0u64;
+            for (li, len) in lens.iter().enumerate() {
+                for class in 0..GRID_CLASSES.len() {
+                    let malformed = class >= 12;
+                    for pos in 0..*len {
+                        if !malformed && (pos + class + li) % 5 != 0 {
+                            continue;
+                        }
+                        idx += 1;
+                        if g.mine(idx) && (g.scale >= 0.5 || idx % 8 < 2) {
+                            emit(Case::with("grid", vec![], &[class as i64, pos as i64, *len as i64, ((pos + li) % 64) as i64, ((pos * 7) % 70) as i64]));
+                        }
+                    }
+                }
+            }
+        }
         // (c) random literal texts with mutations
         let n = g.count(20_000, 600_000);
         for _ in 0..n {
